@@ -44,6 +44,10 @@ CHECKS = {
             "Skinned shapes with 1..120 bones and 1..8 influences are built in OB/FO3/SK/SSE, partitions are rebuilt and triangles re-assigned with in-range, unassigned and "
             "out-of-range labels, emptied, deleted and reset; after each step the coverage / vertex-map / mapped-triangle / bone-limit / weight / alignment invariants are evaluated "
             "on the live blocks.", "3/C10"),
+    "C11": ("exploration", "runtime monitor under AddressSanitizer: byte equality of copies + frozen-record comparison (query battery and canonical block dump) of the untouched side across edit sequences and both destruction orders",
+            "Copy constructor, assignment and copy-of-copy are compared byte for byte with the source; heavy edit sequences run on one side while the other side's full query record and "
+            "block dump must stay identical; source-first and copy-first destruction are followed by queries and saves so that shared or dangling geometry pointers surface as changed "
+            "answers or heap-use-after-free.", "3/C11"),
     "C13": ("exploration", "runtime monitor: API round-trip oracle (setter/creator -> getter, in memory and after save+reload) with storage-quantisation models, over versions x boundary vertex/triangle counts, under ASan/UBSan",
             "Meshes at the sizes {1,2,3,...,65535,65536,70000} are created in six versions; every getter is compared with the given data under the exact storage model (half-float "
             "rounding, byte quantisation) before and after raw/default save+reload, each setter is followed by all getters and by an all-arrays length check.", "3/C13"),
